@@ -7,9 +7,13 @@ package main
 //  * the direct oracle: a signed content (= signing hash) takes effect at most once per branch
 //    (counted by the balance of a fresh recipient), never outside [exp-1800, exp];
 //  * a mirror of everything the engine's TxGuard sees, as op lines for the Lean model:
-//      variant asis|fixed / enew T / blk id parent height time tok* / verify id / save id / del T / restart id
+//      variant asis|fixed / enew T / blk id parent height time tok* / verify id / save id / del T / restart id /
+//      exist headId tok / dump (the real guard's canonical state after every mirrored mutation)
+//    token: <txId>:<content>:<exp>[:<payerContent>] and /<sub token>* for a box; the 4th field only for a reimbursement
+//    tx (content = id of the sender's signing hash, payerContent = id of the gas payer's signing hash)
 
 import (
+	"bytes"
 	"crypto/ecdsa"
 	"encoding/json"
 	"fmt"
@@ -23,6 +27,9 @@ import (
 	"github.com/LemoFoundationLtd/lemochain-core/chain/types"
 	"github.com/LemoFoundationLtd/lemochain-core/common"
 	"github.com/LemoFoundationLtd/lemochain-core/common/rlp"
+	"github.com/LemoFoundationLtd/lemochain-core/main/node"
+	"github.com/LemoFoundationLtd/lemochain-core/network"
+	"github.com/LemoFoundationLtd/lemochain-core/network/p2p"
 )
 
 func init() { subs["c04e"] = c04Engine }
@@ -65,8 +72,7 @@ func (g *c04eG) txID(tx *types.Transaction) int {
 	return v
 }
 
-func (g *c04eG) ctID(tx *types.Transaction) int {
-	h := types.MakeSigner().Hash(tx)
+func (g *c04eG) hashID(h common.Hash) int {
 	if v, ok := g.ctIDs[h]; ok {
 		return v
 	}
@@ -74,6 +80,16 @@ func (g *c04eG) ctID(tx *types.Transaction) int {
 	g.ctIDs[h] = v
 	return v
 }
+
+// c04eSenderContent: the hash the sender(s) signed (a reimbursement tx uses another signer than a plain one).
+func c04eSenderContent(tx *types.Transaction) common.Hash {
+	if len(tx.GasPayerSigs()) > 0 {
+		return types.MakeReimbursementTxSigner().Hash(tx)
+	}
+	return types.MakeSigner().Hash(tx)
+}
+
+func (g *c04eG) ctID(tx *types.Transaction) int { return g.hashID(c04eSenderContent(tx)) }
 
 func c04eSubs(tx *types.Transaction) types.Transactions {
 	if tx.Type() != params.BoxTx {
@@ -86,11 +102,20 @@ func c04eSubs(tx *types.Transaction) types.Transactions {
 	return box.SubTxList
 }
 
-// tok renders a tx as <txId>:<content>:<exp>[/<subId>:<subContent>:<subExp>]*
-func (g *c04eG) tok(tx *types.Transaction) string {
+// tok1: <txId>:<content>:<exp>, plus :<payerContent> for a reimbursement tx
+func (g *c04eG) tok1(tx *types.Transaction) string {
 	s := fmt.Sprintf("%d:%d:%d", g.txID(tx), g.ctID(tx), tx.Expiration())
+	if len(tx.GasPayerSigs()) > 0 {
+		s += fmt.Sprintf(":%d", g.hashID(types.MakeGasPayerSigner().Hash(tx)))
+	}
+	return s
+}
+
+// tok renders a tx as tok1[/tok1 of every sub-tx]
+func (g *c04eG) tok(tx *types.Transaction) string {
+	s := g.tok1(tx)
 	for _, st := range c04eSubs(tx) {
-		s += fmt.Sprintf("/%d:%d:%d", g.txID(st), g.ctID(st), st.Expiration())
+		s += "/" + g.tok1(st)
 	}
 	return s
 }
@@ -174,6 +199,68 @@ type c04eEnv struct {
 	ids   map[common.Hash]int
 	users []*ecdsa.PrivateKey
 	name  string
+	base0 uint32 // the real guard's TimeBase as of the last dump
+	// extra funded accounts: a gas payer, and two accounts that become multisig accounts (setupMultisig)
+	payerK, ms2, ms3 *ecdsa.PrivateKey
+	sgA, sgB, sgC    *ecdsa.PrivateKey // the registered signers of ms2 (A:60 B:50) and ms3 (A:60 B:50 C:40)
+	msReady          bool
+	nearNow          bool // blocks may be stamped up to the real clock + 1 (verifyTime's tolerance)
+}
+
+func c04eFloor60(t uint32) uint32 { return t / 60 * 60 }
+
+// c04eBaseFor: the TimeBase of a guard created for (or pruned by) a stable block stamped t.
+func c04eBaseFor(t uint32) uint32 {
+	if t <= c04eLife {
+		return 0
+	}
+	return c04eFloor60(t - c04eLife)
+}
+
+// dump emits the real guard's canonical state (the model prints the same line) and cross-checks the TimeBase the
+// harness inferred for the mutation just mirrored: wantBase < 0 means "unchanged".
+func (e *c04eEnv) dump(why string, wantBase int64) {
+	out := Safe(func() string {
+		return e.n.BC.TxGuard().VerifDump(func(h common.Hash) int {
+			if id, ok := e.ids[h]; ok {
+				return id
+			}
+			return -1
+		}, func(h common.Hash) int {
+			if id, ok := e.g.txIDs[h]; ok {
+				return id
+			}
+			return -1
+		})
+	})
+	e.g.c.Op("dump", out)
+	var base uint32
+	if _, err := fmt.Sscanf(out, "base=%d", &base); err != nil {
+		e.g.fail("c04/harness-del-inference", fmt.Sprintf("[%s] after %s: unreadable dump %.80q", e.name, why, out), nil)
+		return
+	}
+	want := e.base0
+	if wantBase >= 0 {
+		want = uint32(wantBase)
+	}
+	if base != want {
+		e.g.fail("c04/harness-del-inference", fmt.Sprintf("[%s] after %s: the real guard's base is %d, the mirror expects %d (previous base %d)", e.name, why, base, want, e.base0),
+			map[string]interface{}{"seed": e.g.c.Seed, "why": why})
+	}
+	if strings.Contains(out, "-1") && (strings.Contains(out, ":-1") || strings.Contains(out, ",-1") || strings.Contains(out, "[-1") || strings.Contains(out, " -1>") || strings.Contains(out, ">-1")) {
+		e.g.fail("c04/harness-del-inference", fmt.Sprintf("[%s] after %s: the real guard holds a block or tx the mirror never declared: %.200s", e.name, why, out), nil)
+	}
+	e.base0 = base
+}
+
+// delMirror: the stable block changed to one stamped t: DelOldBlocks(t).
+func (e *c04eEnv) delMirror(t uint32) {
+	e.g.c.Op(fmt.Sprintf("del %d", t), "ok")
+	want := e.base0
+	if nb := c04eBaseFor(t); nb > want {
+		want = nb
+	}
+	e.dump(fmt.Sprintf("del %d", t), int64(want))
 }
 
 // c04eNewEnv creates a node and announces it to the model (enew + genesis blk + save).
@@ -183,9 +270,12 @@ func (g *c04eG) newEnv(name string, w *World) *c04eEnv {
 	g.c.Op(fmt.Sprintf("enew %d", gen.Time()), "ok")
 	id := e.declare(gen)
 	g.c.Op(fmt.Sprintf("save %d", id), "ok")
+	e.dump("enew", int64(c04eBaseFor(gen.Time())))
 	for i := 0; i < 6; i++ {
 		e.users = append(e.users, detKey(fmt.Sprintf("c04e-user-%d", i)))
 	}
+	e.payerK, e.ms2, e.ms3 = detKey("c04e-payer"), detKey("c04e-ms2"), detKey("c04e-ms3")
+	e.sgA, e.sgB, e.sgC = detKey("c04e-signer-A"), detKey("c04e-signer-B"), detKey("c04e-signer-C")
 	return e
 }
 
@@ -232,8 +322,9 @@ func (e *c04eEnv) insert(b *types.Block) string {
 	}
 	if res == "accept" {
 		e.g.c.Op(fmt.Sprintf("save %d", id), "ok")
+		e.dump(fmt.Sprintf("save %d", id), -1)
 		if e.n.BC.StableBlock().Hash() != before {
-			e.g.c.Op(fmt.Sprintf("del %d", b.Time()), "ok")
+			e.delMirror(b.Time())
 		}
 	}
 	return res
@@ -243,8 +334,9 @@ func (e *c04eEnv) insert(b *types.Block) string {
 func (e *c04eEnv) adopt(b *types.Block, stableBefore common.Hash) {
 	id := e.declare(b)
 	e.g.c.Op(fmt.Sprintf("save %d", id), "ok")
+	e.dump(fmt.Sprintf("save %d (mined)", id), -1)
 	if e.n.BC.StableBlock().Hash() != stableBefore {
-		e.g.c.Op(fmt.Sprintf("del %d", b.Time()), "ok")
+		e.delMirror(b.Time())
 	}
 }
 
@@ -276,7 +368,7 @@ func (e *c04eEnv) stabilise(b *types.Block) bool {
 	e.confirm(b)
 	after := e.n.BC.StableBlock().Hash()
 	if after != before {
-		e.g.c.Op(fmt.Sprintf("del %d", b.Time()), "ok")
+		e.delMirror(b.Time())
 		return true
 	}
 	return false
@@ -296,13 +388,14 @@ func (e *c04eEnv) reopen() {
 	e.n.Reopen()
 	st := e.n.BC.StableBlock()
 	e.g.c.Op(fmt.Sprintf("restart %d", e.id(st.Hash())), "ok")
+	e.dump("restart", int64(c04eBaseFor(st.Time())))
 }
 
 type c04eTimeUp struct{}
 
 // build: miner path with private copies of the txs. Panics with c04eTimeUp when the time budget of the world is used up.
 func (e *c04eEnv) build(parent *types.Block, t uint32, txs ...*types.Transaction) (*types.Block, types.Transactions) {
-	if int64(t) > time.Now().Unix()-5 {
+	if int64(t) > time.Now().Unix()-5 && !(e.nearNow && int64(t) <= time.Now().Unix()+1) {
 		panic(c04eTimeUp{})
 	}
 	var cp types.Transactions
@@ -333,11 +426,25 @@ func (e *c04eEnv) fund() {
 	g := e.n.BC.CurrentBlock()
 	t := g.Time() + 1
 	var txs []*types.Transaction
-	for i, u := range e.users {
+	for i, u := range append(append([]*ecdsa.PrivateKey{}, e.users...), e.payerK, e.ms2, e.ms3) {
 		txs = append(txs, txTransfer(e.w.FounderKey, keyAddr(u), lemo(int64(1000000+i)), TxOpt{Exp: uint64(t) + 600, Msg: e.g.msg()}))
 	}
 	b := e.mustInsert(g, t, txs...)
 	e.stabilise(b)
+}
+
+// setupMultisig turns ms2 into a multisig account with signers A:60 B:50 and ms3 into one with A:60 B:50 C:40 (threshold 100).
+func (e *c04eEnv) setupMultisig() {
+	h := e.n.BC.CurrentBlock()
+	t := h.Time() + 1
+	sa := func(k *ecdsa.PrivateKey, w uint8) types.SignAccount {
+		return types.SignAccount{Address: keyAddr(k), Weight: w}
+	}
+	b := e.mustInsert(h, t,
+		txModifySigners(e.ms2, keyAddr(e.ms2), types.Signers{sa(e.sgA, 60), sa(e.sgB, 50)}, TxOpt{Exp: uint64(t) + 600, Msg: e.g.msg()}),
+		txModifySigners(e.ms3, keyAddr(e.ms3), types.Signers{sa(e.sgA, 60), sa(e.sgB, 50), sa(e.sgC, 40)}, TxOpt{Exp: uint64(t) + 600, Msg: e.g.msg()}))
+	e.stabilise(b)
+	e.msReady = true
 }
 
 func (e *c04eEnv) bal(b *types.Block, a common.Address) *big.Int { return e.n.balanceAt(b.Hash(), a) }
@@ -460,12 +567,24 @@ func c04Engine(c *Ctx) {
 	g.variant = c04eProbe(g, now)
 	c.Op("variant "+g.variant, "ok")
 
+	// ---- family 0: the entry points that ask the guard about the CURRENT head before pooling a tx (RPC SendTx, network
+	// TxsMsg). It runs first and is short: a ProtocolManager subscribes to the process-wide event hub, whose Send spins
+	// for ever on a channel nobody drains; no engine timer (FetchRemoteConfirms, 30 s after a stable change) may be
+	// pending while one is alive.
+	apiPasses := 1 + reps/10
+	if apiPasses > 4 {
+		apiPasses = 4
+	}
+	for r := 0; r < apiPasses; r++ {
+		c04eAPI(g, r)
+	}
+
 	// ---- family 1: re-encodings, duplicates, boxes, across blocks, window, forks  (one node)
 	func() {
 		w := NewWorld(3, now-3000000, 10000)
 		e := g.newEnv("main", w)
 		defer e.n.Close()
-		if !e.run("setup", e.fund) {
+		if !e.run("setup", e.fund) || !e.run("setup-multisig", e.setupMultisig) {
 			return
 		}
 		for r := 0; r < reps; r++ {
@@ -475,6 +594,11 @@ func c04Engine(c *Ctx) {
 			}{
 				{"malleated", func() { e.scReencoded("malleated") }},
 				{"surplus", func() { e.scReencoded("surplus") }},
+				{"payer-rewrap", func() { e.scReencoded("payer-rewrap") }},
+				{"ms-reordered", func() { e.scReencoded("ms-reordered") }},
+				{"ms-duplicated", func() { e.scReencoded("ms-duplicated") }},
+				{"ms-foreign", func() { e.scReencoded("ms-foreign") }},
+				{"ms-subset", func() { e.scReencoded("ms-subset") }},
 				{"dup-in-block", e.scDupInBlock},
 				{"box-in-block", e.scBoxInBlock},
 				{"across", e.scAcross},
@@ -526,6 +650,23 @@ func c04Engine(c *Ctx) {
 		e.run("random", func() { e.scRandom(reps * 100) })
 	}()
 
+	// ---- family 5: fork switches of every kind: the pool must get the old branch's txs and lose the new branch's
+	func() {
+		w := NewWorld(3, now-10000000, 10000)
+		e := g.newEnv("forkswitch", w)
+		defer func() { e.n.Close() }()
+		if !e.run("setup", e.fund) {
+			return
+		}
+		for r := 0; r < reps; r++ {
+			for _, shape := range []string{"plain", "after-reopen", "by-confirm", "old-ancestor", "old-ancestor-by-confirm", "after-reopen-by-confirm"} {
+				if !e.run("forkswitch", func() { e.scForkSwitch(shape) }) {
+					return
+				}
+			}
+		}
+	}()
+
 	// ---- family 3: the real miner with a pool fed by a side-branch block (fresh node pair per repetition, real clock)
 	mreps := reps
 	if mreps < 6 {
@@ -536,6 +677,13 @@ func c04Engine(c *Ctx) {
 	}
 	for r := 0; r < mreps; r++ {
 		c04eMiner(g, r)
+	}
+
+	// ---- family 6: the real miner and a pooled tx that is still too far in the future (timing dependent)
+	for try := 0; try < 5; try++ {
+		if c04eTooFar(g, try) {
+			break
+		}
 	}
 }
 
@@ -579,8 +727,132 @@ func (e *c04eEnv) scReencoded(kind string) {
 	}
 }
 
+// c04eVariant: a tx T and a second tx T' with the same signed content, made from T by somebody who does not hold the
+// sender's key(s).
+type c04eVariant struct {
+	t, t2  *types.Transaction
+	sig    string
+	sender common.Address
+	payer  common.Address // who pays the gas (= sender unless a reimbursement tx)
+	rcpt   common.Address
+	amount *big.Int
+	who    string // who can mount it
+	how    string
+}
+
+func c04eWithSigs(tx *types.Transaction, sigs ...[]byte) *types.Transaction {
+	var all []string
+	for _, sg := range sigs {
+		all = append(all, common.ToHex(sg))
+	}
+	return c04eTxEdit(tx, func(m map[string]interface{}) { m["sigs"] = all })
+}
+
+func (e *c04eEnv) variant(kind string, exp uint64) c04eVariant {
+	rnd := e.g.c.Rnd
+	amount := new(big.Int).Add(lemo(int64(1+rnd.Intn(50))), big.NewInt(int64(rnd.Intn(1000))))
+	rc := e.g.rcpt()
+	msg := e.g.msg()
+	v := c04eVariant{rcpt: rc, amount: amount}
+	signAll := func(tx *types.Transaction, keys ...*ecdsa.PrivateKey) *types.Transaction {
+		for _, k := range keys {
+			tx = signTx(tx, k)
+		}
+		return c04eWire(tx)
+	}
+	switch kind {
+	case "malleated", "surplus":
+		from := e.users[rnd.Intn(len(e.users))]
+		v.t = txTransfer(from, rc, amount, TxOpt{Exp: exp, Msg: msg})
+		v.sender, v.payer = keyAddr(from), keyAddr(from)
+		if kind == "malleated" {
+			v.t2 = c04eMalleated(v.t)
+			v.sig, v.who, v.how = "c04/replayed/malleated-signature", "anybody (no key)", "sigs[0] re-encoded as (r, n-s, v^1)"
+		} else {
+			v.t2 = c04eSurplus(v.t, detKey("c04e-foreign"))
+			v.sig, v.who, v.how = "c04/replayed/surplus-signature", "anybody (any key of his own)", "a surplus signature by a foreign key appended to a plain account's tx"
+		}
+	case "payer-rewrap":
+		// the sender signs a reimbursement tx (that hash omits gasPrice/gasLimit); the gas payer wraps it twice
+		from := e.users[rnd.Intn(len(e.users))]
+		wrap := func(price *big.Int, limit uint64) *types.Transaction {
+			tx := types.NewReimbursementTransaction(keyAddr(from), rc, keyAddr(e.payerK), amount, nil, params.OrdinaryTx, nodeChainID, exp, "", msg)
+			stx, err := types.MakeReimbursementTxSigner().SignTx(tx, from)
+			if err != nil {
+				panic(err)
+			}
+			stx = types.GasPayerSignatureTx(stx, price, limit)
+			ptx, err := types.MakeGasPayerSigner().SignTx(stx, e.payerK)
+			if err != nil {
+				panic(err)
+			}
+			return c04eWire(ptx)
+		}
+		v.t = wrap(new(big.Int).Set(oneGwei), 2000000)
+		if rnd.Intn(2) == 0 {
+			v.t2 = wrap(new(big.Int).Add(oneGwei, big.NewInt(1)), 2000000)
+			v.how = "the gas payer signs the same sender-signed tx again with gasPrice 1 gwei + 1"
+		} else {
+			v.t2 = wrap(new(big.Int).Set(oneGwei), uint64(2000001+rnd.Intn(1000)))
+			v.how = fmt.Sprintf("the gas payer signs the same sender-signed tx again with gasLimit %d instead of 2000000", v.t2.GasLimit())
+		}
+		if !bytes.Equal(v.t.Sigs()[0], v.t2.Sigs()[0]) || len(v.t.Sigs()) != 1 || len(v.t2.Sigs()) != 1 {
+			panic("payer-rewrap: the sender's signature bytes differ")
+		}
+		v.sender, v.payer = keyAddr(from), keyAddr(e.payerK)
+		v.sig, v.who = "c04/replayed/payer-rewrap", "the gas payer alone (no sender key)"
+	case "ms-reordered", "ms-duplicated", "ms-foreign", "ms-subset":
+		acct := e.ms2
+		keys := []*ecdsa.PrivateKey{e.sgA, e.sgB}
+		if kind == "ms-subset" {
+			acct = e.ms3
+			keys = []*ecdsa.PrivateKey{e.sgA, e.sgB, e.sgC}
+		}
+		raw := types.NewTransaction(keyAddr(acct), rc, amount, 2000000, new(big.Int).Set(oneGwei), nil, params.OrdinaryTx, nodeChainID, exp, "", msg)
+		v.t = signAll(raw, keys...)
+		sg := v.t.Sigs()
+		v.sender, v.payer = keyAddr(acct), keyAddr(acct)
+		switch kind {
+		case "ms-reordered":
+			v.t2 = c04eWithSigs(v.t, sg[1], sg[0])
+			v.sig, v.who, v.how = "c04/replayed/multisig-reordered", "anybody (no key)", "sigs [A,B] reordered to [B,A]"
+		case "ms-duplicated":
+			if rnd.Intn(2) == 0 {
+				v.t2 = c04eWithSigs(v.t, sg[0], sg[1], sg[0])
+				v.how = "sigs [A,B] extended to [A,B,A]"
+			} else {
+				v.t2 = c04eWithSigs(v.t, sg[0], sg[0], sg[1])
+				v.how = "sigs [A,B] extended to [A,A,B]"
+			}
+			v.sig, v.who = "c04/replayed/multisig-duplicated", "anybody (no key)"
+		case "ms-foreign":
+			v.t2 = signAll(c04eWire(v.t), detKey("c04e-foreign"))
+			v.sig, v.who, v.how = "c04/replayed/multisig-foreign-entry", "anybody (any key of his own)", "sigs [A,B] extended to [A,B,X], X a key that is not a signer of the account"
+		case "ms-subset":
+			if rnd.Intn(2) == 0 {
+				v.t2 = c04eWithSigs(v.t, sg[0], sg[1])
+				v.how = "sigs [A:60,B:50,C:40] reduced to [A,B] (110 >= 100)"
+			} else {
+				v.t2 = c04eWithSigs(v.t, sg[0], sg[2])
+				v.how = "sigs [A:60,B:50,C:40] reduced to [A,C] (100 >= 100)"
+			}
+			v.sig, v.who = "c04/replayed/multisig-subset", "anybody (no key)"
+		}
+	default:
+		panic("unknown kind " + kind)
+	}
+	if v.t2.Hash() == v.t.Hash() || c04eSenderContent(v.t2) != c04eSenderContent(v.t) {
+		panic(kind + ": re-encoding did not produce a distinct tx with the same signed content")
+	}
+	return v
+}
+
 func (e *c04eEnv) scReencodedAt(kind, place string) {
 	c, rnd := e.g.c, e.g.c.Rnd
+	if strings.HasPrefix(kind, "ms-") && !e.msReady {
+		c.Count("e:" + kind + ":no-multisig-account")
+		return
+	}
 	base := e.base()
 	t1 := base.Time() + 1 + uint32(rnd.Intn(25))
 	gap := uint32(rnd.Intn(60))
@@ -595,33 +867,29 @@ func (e *c04eEnv) scReencodedAt(kind, place string) {
 	case 1:
 		exp = uint64(t1 + c04eLife)
 	}
-	p := e.pay(exp)
-	var p2 *types.Transaction
-	sig := "c04/replayed/malleated-signature"
-	if kind == "malleated" {
-		p2 = c04eMalleated(p.tx)
-	} else {
-		p2 = c04eSurplus(p.tx, detKey("c04e-foreign"))
-		sig = "c04/replayed/surplus-signature"
-	}
-	if p2.Hash() == p.tx.Hash() || types.MakeSigner().Hash(p2) != types.MakeSigner().Hash(p.tx) || c04eSigner0(p.tx) != keyAddr(p.from) {
-		panic("re-encoding did not produce a distinct tx with the same content")
-	}
-	if c04eSigner0(p2) != keyAddr(p.from) {
-		// since fix 04be1c5 the (r, n-s, v^1) encoding no longer recovers to anybody; the scenario still runs, so that
-		// the engine's verdict on a block carrying it is observed (the miner must drop it)
-		if kind != "malleated" {
-			panic("re-encoding did not keep the signer")
+	p := e.variant(kind, exp)
+	p2 := p.t2
+	if kind == "malleated" || kind == "surplus" {
+		if c04eSigner0(p.t) != p.sender {
+			panic("the signer of T is not the sender")
 		}
-		c.Count("e:" + kind + ":signature-no-longer-recovers")
+		if c04eSigner0(p2) != p.sender {
+			// since fix 04be1c5 the (r, n-s, v^1) encoding no longer recovers to anybody; the scenario still runs, so that
+			// the engine's verdict on a block carrying it is observed (the miner must drop it)
+			if kind != "malleated" {
+				panic("re-encoding did not keep the signer")
+			}
+			c.Count("e:" + kind + ":signature-no-longer-recovers")
+		}
 	}
-	senderBefore := e.bal(base, keyAddr(p.from))
+	senderBefore := e.bal(base, p.sender)
+	payerBefore := e.bal(base, p.payer)
 	var chainBlocks []*types.Block
 	var head *types.Block
 	verdict := ""
 	if place == "same-block" {
-		b, _ := e.build(base, t1, p.tx, p2)
-		if c04eContains(b, p.tx.Hash()) != 1 || c04eContains(b, p2.Hash()) != 1 {
+		b, _ := e.build(base, t1, p.t, p2)
+		if c04eContains(b, p.t.Hash()) != 1 || c04eContains(b, p2.Hash()) != 1 {
 			c.Count("e:" + kind + ":" + place + ":miner-dropped")
 			e.insert(b)
 			return
@@ -630,7 +898,7 @@ func (e *c04eEnv) scReencodedAt(kind, place string) {
 		head = b
 		chainBlocks = append(chainBlocks, b)
 	} else {
-		b1 := e.mustInsert(base, t1, p.tx)
+		b1 := e.mustInsert(base, t1, p.t)
 		chainBlocks = append(chainBlocks, b1)
 		parent := b1
 		if place == "grandchild" {
@@ -655,15 +923,26 @@ func (e *c04eEnv) scReencodedAt(kind, place string) {
 	k := e.execs(head, p.rcpt, p.amount)
 	fees := new(big.Int)
 	for _, b := range chainBlocks {
-		fees.Add(fees, c04eFees(b, keyAddr(p.from)))
+		fees.Add(fees, c04eFees(b, p.payer))
 	}
-	debit := new(big.Int).Sub(senderBefore, e.bal(head, keyAddr(p.from)))
-	wantDebit := new(big.Int).Add(new(big.Int).Mul(p.amount, big.NewInt(k)), fees)
+	debit := new(big.Int).Sub(senderBefore, e.bal(head, p.sender))
+	wantDebit := new(big.Int).Mul(p.amount, big.NewInt(k))
+	payerNote := ""
+	if p.payer == p.sender {
+		wantDebit.Add(wantDebit, fees)
+	} else {
+		payerDebit := new(big.Int).Sub(payerBefore, e.bal(head, p.payer))
+		payerNote = fmt.Sprintf("; gas payer debited %s = the gas of both txs (%v)", payerDebit, payerDebit.Cmp(fees) == 0)
+		if payerDebit.Cmp(fees) != 0 {
+			c.Count("e:" + kind + ":payer-debit-unexpected")
+		}
+	}
 	if k >= 2 {
 		c.Count("e:" + kind + ":" + place + ":replayed")
-		e.g.fail(sig, fmt.Sprintf("tx T (hash %s) in block time %d and its re-encoding T' (hash %s, same signing hash %s, same signer) placed as %s at time %d (exp %d) are both accepted: recipient credited %d x %s, sender debited %s (= %d x amount + fees %s: %v)",
-			p.tx.Hash().Hex()[:10], t1, p2.Hash().Hex()[:10], types.MakeSigner().Hash(p2).Hex()[:10], place, t2, exp, k, p.amount, debit, k, fees, debit.Cmp(wantDebit) == 0),
-			e.witness(map[string]interface{}{"kind": kind, "place": place, "t1": t1, "t2": t2, "exp": exp, "amount": p.amount.String(), "execs": k, "sigsT": len(p.tx.Sigs()), "sigsT2": len(p2.Sigs())}))
+		e.g.fail(p.sig, fmt.Sprintf("tx T (hash %s, %d sigs) in block time %d and T' (hash %s, %d sigs, same signed content %s; %s; can be made by: %s) placed as %s at time %d (exp %d) are both accepted: recipient credited %d x %s, sender debited %s (= %d x amount + own gas fees: %v)%s",
+			p.t.Hash().Hex()[:10], len(p.t.Sigs()), t1, p2.Hash().Hex()[:10], len(p2.Sigs()), c04eSenderContent(p2).Hex()[:10], p.how, p.who, place, t2, exp, k, p.amount, debit, k, debit.Cmp(wantDebit) == 0, payerNote),
+			e.witness(map[string]interface{}{"kind": kind, "place": place, "t1": t1, "t2": t2, "exp": exp, "amount": p.amount.String(), "execs": k, "sigsT": len(p.t.Sigs()), "sigsT2": len(p2.Sigs()),
+				"gasPriceT": p.t.GasPrice().String(), "gasPriceT2": p2.GasPrice().String(), "gasLimitT": p.t.GasLimit(), "gasLimitT2": p2.GasLimit(), "how": p.how, "who": p.who}))
 	} else {
 		c.Count(fmt.Sprintf("e:%s:%s:accepted-execs-%d", kind, place, k))
 	}
@@ -1604,4 +1883,321 @@ func (e *c04eEnv) scRandom(steps int) {
 			}
 		}
 	}
+}
+
+// ---- the entry points that consult the guard before pooling: PublicTxAPI.SendTx and handleTxsMsg ------------------
+
+type c04eConn struct{ id p2p.NodeID }
+
+func (c *c04eConn) ReadMsg() (*p2p.Msg, error)                       { select {} }
+func (c *c04eConn) WriteMsg(code p2p.MsgCode, msg []byte) error      { return nil }
+func (c *c04eConn) SetWriteDeadline(time.Duration)                   {}
+func (c *c04eConn) RNodeID() *p2p.NodeID                             { return &c.id }
+func (c *c04eConn) RAddress() string                                 { return "10.0.0.1:7001" }
+func (c *c04eConn) LAddress() string                                 { return "10.0.0.2:7001" }
+func (c *c04eConn) DoHandshake(*ecdsa.PrivateKey, *p2p.NodeID) error { return nil }
+func (c *c04eConn) Run() error                                       { return nil }
+func (c *c04eConn) NeedReConnect() bool                              { return false }
+func (c *c04eConn) SetStatus(int32)                                  {}
+func (c *c04eConn) Close()                                           {}
+
+func (e *c04eEnv) inPool(h common.Hash) bool {
+	for _, tx := range e.n.Pool.GetTxs(0, 100000) {
+		if tx.Hash() == h {
+			return true
+		}
+	}
+	return false
+}
+
+func (e *c04eEnv) clearPool() { e.n.Pool.DelTxs(e.n.Pool.GetTxs(0, 100000)) }
+
+// existOp asks the real guard the question both entry points ask (safely) and mirrors it for the model.
+func (e *c04eEnv) existOp(tx *types.Transaction) string {
+	head := e.n.BC.CurrentBlock()
+	res, msg := SafeMsg(func() string {
+		return fmt.Sprint(e.n.BC.TxGuard().ExistTx(head.Hash(), c04eWire(tx)))
+	})
+	e.g.c.Op(fmt.Sprintf("exist %d %s", e.id(head.Hash()), e.g.tok(tx)), res)
+	if res == "panic" {
+		e.g.fail("c04/engine-panic/exist-tx-on-head", fmt.Sprintf("[%s] TxGuard.ExistTx(CurrentBlock().Hash(), tx) panics (head height %d time %d, stable height %d): %s; SendTx and handleTxsMsg make exactly this call", e.name, head.Height(), head.Time(), e.n.BC.StableBlock().Height(), msg),
+			e.witness(map[string]interface{}{"headId": e.id(head.Hash())}))
+	}
+	return res
+}
+
+// entry drives both real entry points with tx. onBranch: the tx (or one of its sub-txs, or the box around it) is on the
+// node's current branch, so it must not get into the pool.
+func (e *c04eEnv) entry(state, label string, tx *types.Transaction, onBranch bool) {
+	c := e.g.c
+	tag := "e:api:" + state + ":" + label
+	wit := func(path string) map[string]interface{} {
+		return e.witness(map[string]interface{}{"state": state, "tx": label, "path": path, "onBranch": onBranch, "headHeight": e.n.BC.CurrentBlock().Height(), "stableHeight": e.n.BC.StableBlock().Height()})
+	}
+	judge := func(path string, pooled bool, note string) {
+		switch {
+		case onBranch && pooled:
+			c.Count(tag + ":" + path + ":POOLED-THOUGH-ON-BRANCH")
+			e.g.fail("c04/pooled-guarded-tx/"+path, fmt.Sprintf("state %s: tx %s is on the node's current branch, yet %s put it into the pool%s", state, label, path, note), wit(path))
+		case !onBranch && !pooled:
+			c.Count(tag + ":" + path + ":NOT-POOLED")
+			e.g.fail("c04/valid-tx-not-pooled/"+path, fmt.Sprintf("state %s: tx %s is valid now and not on the node's current branch, yet %s did not pool it%s", state, label, path, note), wit(path))
+		case pooled:
+			c.Count(tag + ":" + path + ":pooled")
+		default:
+			c.Count(tag + ":" + path + ":kept-out")
+		}
+	}
+	// ---- RPC
+	e.clearPool()
+	if ex := e.existOp(tx); ex == "panic" {
+		return
+	} else if ex != fmt.Sprint(onBranch) {
+		c.Count(tag + ":guard-answers-" + ex)
+	}
+	api := node.VerifTxAPI(nodeChainID, e.n.BC, e.n.Pool)
+	res, msg := SafeMsg(func() string {
+		if _, err := api.SendTx(c04eWire(tx)); err != nil {
+			return "err " + err.Error()
+		}
+		return "ok"
+	})
+	if res == "panic" {
+		e.g.fail("c04/engine-panic/send-tx", fmt.Sprintf("state %s tx %s: SendTx panics: %s", state, label, msg), wit("send-tx"))
+	} else {
+		note := ""
+		if res != "ok" {
+			note = " (SendTx answered: " + res + ")"
+		}
+		judge("send-tx", e.inPool(tx.Hash()), note)
+	}
+	// ---- network: the tx and a fresh marker tx in one TxsMsg (one goroutine per tx; the marker tells that they ran)
+	e.clearPool()
+	if e.existOp(tx) == "panic" {
+		return
+	}
+	marker := e.pay(uint64(time.Now().Unix()) + 900).tx
+	buf, err := rlp.EncodeToBytes(types.Transactions{c04eWire(tx), marker})
+	if err != nil {
+		panic(err)
+	}
+	pm := network.NewProtocolManager(nodeChainID, p2p.NodeID{}, e.n.BC, e.n.DM, e.n.Pool, e.n.BC.TxGuard(), p2p.NewDiscoverManager(""), 1, params.VersionUint(), "")
+	vp := network.VerifNewPeer(&c04eConn{})
+	herr := pm.VerifWork(&p2p.Msg{Code: p2p.TxsMsg, Content: buf}, vp)
+	deadline := time.Now().Add(300 * time.Millisecond)
+	for !e.inPool(marker.Hash()) && time.Now().Before(deadline) {
+		time.Sleep(2 * time.Millisecond)
+	}
+	markerIn := e.inPool(marker.Hash())
+	time.Sleep(5 * time.Millisecond)
+	pooled := e.inPool(tx.Hash())
+	pm.Stop()
+	if herr != nil || !markerIn {
+		c.Count(tag + ":txs-msg:marker-not-pooled")
+		e.g.fail("c04/valid-tx-not-pooled/txs-msg", fmt.Sprintf("state %s: a fresh valid tx sent in a TxsMsg is not in the pool after 300 ms (handler error: %v)", state, herr), wit("txs-msg"))
+	}
+	judge("txs-msg", pooled, "")
+	e.clearPool()
+}
+
+func c04eAPI(g *c04eG, pass int) {
+	c, rnd := g.c, g.c.Rnd
+	now := uint32(time.Now().Unix())
+	w := NewWorld(3, now-1450-uint32(rnd.Intn(50)), 10000)
+	e := g.newEnv("api", w)
+	defer func() { e.n.Close() }()
+	e.run("api", func() {
+		exp := func() uint64 { return uint64(time.Now().Unix()) + 60 + uint64(rnd.Intn(200)) }
+		fresh := func(state string) { e.entry(state, "fresh", e.pay(exp()).tx, false) }
+		// head == stable == genesis
+		fresh("genesis")
+		e.fund()
+		f := e.n.BC.CurrentBlock()
+		fresh("stable-head")
+		tf := f.Time()
+		t1, t2, t3, t4 := e.pay(exp()), e.pay(exp()), e.pay(exp()), e.pay(exp())
+		box2 := e.box(e.otherUser(t2.from), t2.tx.Expiration()-uint64(rnd.Intn(20)), t2.tx)
+		box4 := e.box(e.otherUser(t4.from), t4.tx.Expiration()-uint64(rnd.Intn(20)), t4.tx)
+		// branch A = F-A1: T1 standalone, T2 inside a box
+		a1 := e.mustInsert(f, tf+1+uint32(rnd.Intn(9)), t1.tx, box2)
+		around1 := e.box(e.otherUser(t1.from), t1.tx.Expiration()-uint64(rnd.Intn(20)), t1.tx) // a box nobody has seen, around the on-branch T1
+		e.entry("on-branch", "standalone-on-branch", t1.tx, true)
+		e.entry("on-branch", "sub-of-box-on-branch", t2.tx, true)
+		e.entry("on-branch", "box-on-branch", box2, true)
+		e.entry("on-branch", "new-box-around-tx-on-branch", around1, true)
+		fresh("on-branch")
+		// side branch B1 = child of F: T3 standalone, T4 inside a box; the head stays A1
+		b1 := e.mustInsert(f, tf+11+uint32(rnd.Intn(9)), t3.tx, box4)
+		if e.n.BC.CurrentBlock().Hash() != a1.Hash() {
+			panic("head left A1")
+		}
+		if e.inPool(t3.tx.Hash()) {
+			c.Count("e:api:side-block-txs-pooled-by-engine")
+		}
+		e.entry("side-fork", "standalone-on-side-fork-only", t3.tx, false)
+		e.entry("side-fork", "sub-of-box-on-side-fork-only", t4.tx, false)
+		e.entry("side-fork", "box-on-side-fork-only", box4, false)
+		e.entry("side-fork", "standalone-on-branch", t1.tx, true)
+		fresh("side-fork")
+		// B grows: fork switch
+		b2 := e.mustInsert(b1, b1.Time()+uint32(rnd.Intn(9)))
+		if e.n.BC.CurrentBlock().Hash() != b2.Hash() {
+			panic("no fork switch")
+		}
+		e.entry("after-switch", "standalone-on-new-branch", t3.tx, true)
+		e.entry("after-switch", "sub-of-box-on-new-branch", t4.tx, true)
+		e.entry("after-switch", "standalone-on-abandoned-branch-only", t1.tx, false)
+		e.entry("after-switch", "box-on-abandoned-branch-only", box2, false)
+		e.entry("after-switch", "new-box-around-tx-on-abandoned-branch", around1, false)
+		fresh("after-switch")
+		// the new branch becomes stable (the old one is pruned from the store, not from the guard)
+		e.stabilise(b2)
+		e.entry("after-stable", "standalone-on-branch", t3.tx, true)
+		e.entry("after-stable", "standalone-on-pruned-branch-only", t1.tx, false)
+		fresh("after-stable")
+		// an unstable block on top, then restart: it is lost, the guard is rebuilt from the stable chain
+		t5 := e.pay(exp())
+		e.mustInsert(b2, b2.Time()+uint32(rnd.Intn(9)), t5.tx)
+		e.entry("unstable-on-top", "standalone-in-unstable-head", t5.tx, true)
+		e.reopen()
+		lost := e.n.BC.CurrentBlock().Hash() == b2.Hash()
+		e.entry("after-reopen", "standalone-on-stable-chain", t3.tx, true)
+		e.entry("after-reopen", "sub-of-box-on-stable-chain", t4.tx, true)
+		e.entry("after-reopen", "standalone-on-pruned-branch-only", t1.tx, false)
+		e.entry("after-reopen", "standalone-in-lost-unstable-block", t5.tx, !lost)
+		fresh("after-reopen")
+		_ = pass
+	})
+}
+
+// ---- fork switches: onCurrentChanged -> GetTxsByBranch -> pool ----------------------------------------------------------
+
+func (e *c04eEnv) scForkSwitch(shape string) {
+	c, rnd := e.g.c, e.g.c.Rnd
+	base := e.base()
+	if strings.HasPrefix(shape, "after-reopen") {
+		e.reopen()
+	}
+	gap := uint32(rnd.Intn(10))
+	if strings.HasPrefix(shape, "old-ancestor") {
+		gap = c04eLife + 100 + uint32(rnd.Intn(300)) // the common ancestor is more than a life time older than both tips
+	}
+	byConfirm := strings.HasSuffix(shape, "by-confirm")
+	tA1 := base.Time() + gap + uint32(rnd.Intn(10))
+	tB1 := tA1 + 10 + uint32(rnd.Intn(10))
+	ta := e.pay(uint64(tB1) + 100 + uint64(rnd.Intn(1000)))
+	tb := e.pay(uint64(tB1) + 100 + uint64(rnd.Intn(1000)))
+	both := e.pay(uint64(tB1) + 100 + uint64(rnd.Intn(1000))) // on both branches
+	e.clearPool()
+	a1 := e.mustInsert(base, tA1, ta.tx, both.tx)
+	oldHead := a1
+	if byConfirm {
+		oldHead = e.mustInsert(a1, tA1+uint32(rnd.Intn(5)))
+	}
+	b1 := e.mustInsert(base, tB1, tb.tx, both.tx)
+	if e.n.BC.CurrentBlock().Hash() != oldHead.Hash() {
+		panic("the side block moved the head")
+	}
+	sidePooled := e.inPool(tb.tx.Hash())
+	newHead := b1
+	if byConfirm {
+		// a block of the OTHER branch becomes stable: the current branch is cut (UpdateForkForConfirm)
+		if !e.stabilise(b1) {
+			panic("B1 did not become stable")
+		}
+	} else {
+		newHead = e.mustInsert(b1, tB1+uint32(rnd.Intn(5)))
+	}
+	if e.n.BC.CurrentBlock().Hash() != newHead.Hash() {
+		c.Count("e:forkswitch:" + shape + ":no-switch")
+		return
+	}
+	hasA, hasB, hasBoth := e.inPool(ta.tx.Hash()), e.inPool(tb.tx.Hash()), e.inPool(both.tx.Hash())
+	if hasA && !hasB && !hasBoth {
+		c.Count("e:forkswitch:" + shape + ":pool-ok")
+	} else {
+		c.Count(fmt.Sprintf("e:forkswitch:%s:pool-WRONG(old-only=%v new-only=%v both=%v)", shape, hasA, hasB, hasBoth))
+		e.g.fail("c04/fork-switch-pool-not-updated", fmt.Sprintf("%s: after the switch from the branch of A1 (time %d) to the branch of B1 (time %d; common ancestor time %d, stable time %d) the pool holds: old-branch-only tx %v (want true), new-branch-only tx %v (want false; it was pooled by the side block: %v), tx on both %v (want false)",
+			shape, tA1, tB1, base.Time(), e.n.BC.StableBlock().Time(), hasA, hasB, sidePooled, hasBoth),
+			e.witness(map[string]interface{}{"shape": shape, "tA1": tA1, "tB1": tB1, "baseTime": base.Time()}))
+	}
+	e.clearPool()
+}
+
+// ---- the real miner and a pooled tx whose expiration is 1801 s after the stamp ------------------------------------------
+
+// c04eTooFar returns true when the timing worked out (whatever the engine did), false when the attempt has to be repeated.
+func c04eTooFar(g *c04eG, try int) (done bool) {
+	c, rnd := g.c, g.c.Rnd
+	now := uint32(time.Now().Unix())
+	w := NewWorld(3, now-300-uint32(rnd.Intn(50)), 10000)
+	e := g.newEnv("toofar", w)
+	e.nearNow = true
+	defer func() { e.n.Close() }()
+	nb := w.NewNode(3)
+	defer nb.Close()
+	both := func(b *types.Block) bool {
+		deputynode.SetSelfNodeKey(g.observer)
+		return nb.Insert(CloneBlock(b)) == nil
+	}
+	e.run("miner-too-far", func() {
+		e.fund()
+		f := e.n.BC.CurrentBlock()
+		both(f)
+		c04eConfirmOn(nb, g.observer, f, e.otherDeputy(f.MinerAddress()))
+		a1 := e.mustInsert(f, f.Time()+1+uint32(rnd.Intn(9)))
+		both(a1)
+		a2 := e.mustInsert(a1, a1.Time()+uint32(rnd.Intn(9)))
+		both(a2)
+		// start right after a tick of the clock, so that insert + mine fit into one second
+		for time.Now().Nanosecond() > 150*1000*1000 {
+			time.Sleep(3 * time.Millisecond)
+		}
+		tB1 := uint32(time.Now().Unix()) + 1
+		p := e.pay(uint64(tB1) + uint64(c04eLife))
+		b1, _ := e.build(f, tB1, p.tx)
+		if v := e.insert(b1); v != "accept" {
+			c.Count("e:miner-too-far:side-block-stamped-now+1-" + v)
+			return
+		}
+		peerHasB1 := both(b1)
+		if !e.inPool(p.tx.Hash()) {
+			c.Count("e:miner-too-far:not-pooled")
+			done = true
+			return
+		}
+		stableBefore := e.n.BC.StableBlock().Hash()
+		m, err := e.n.MineReal(nil)
+		if m == nil {
+			c.Count("e:miner-too-far:mine-failed")
+			_ = err
+			return
+		}
+		e.adopt(m, stableBefore)
+		if m.Time() >= tB1 {
+			c.Count("e:miner-too-far:timing-missed")
+			return
+		}
+		done = true
+		got := c04eContains(m, p.tx.Hash())
+		deputynode.SetSelfNodeKey(g.observer)
+		peer := Safe(func() string {
+			if err := nb.Insert(CloneBlock(m)); err != nil {
+				return "reject"
+			}
+			return "accept"
+		})
+		if got == 0 {
+			c.Count("e:miner-too-far:mined-without-it:peer-" + peer)
+			return
+		}
+		k := e.execs(m, p.rcpt, p.amount)
+		c.Count(fmt.Sprintf("e:miner-too-far:mined-with-it:execs-%d:peer-%s", k, peer))
+		if peer != "accept" || uint64(m.Time())+uint64(c04eLife) < p.tx.Expiration() {
+			e.g.fail("c04/miner-packs-too-far-tx", fmt.Sprintf("side-branch block B1 stamped %d (= clock + 1, accepted) carries tx %s with expiration %d = B1.time + 1800; it is not on the current branch, so it is pooled; the real miner (MineBlock on the head, stamp %d) packs it although expiration - stamp = %d > 1800 (pool.GetTxs only drops expired txs, MineBlock does not run verifyTxs on its own block): executed %d time(s) on the miner's chain; a second honest node (it has B1: %v) answers %s to that block",
+				tB1, p.tx.Hash().Hex()[:10], p.tx.Expiration(), m.Time(), p.tx.Expiration()-uint64(m.Time()), k, peerHasB1, peer),
+				e.witness(map[string]interface{}{"tB1": tB1, "exp": p.tx.Expiration(), "minedAt": m.Time(), "execs": k, "peer": peer, "try": try}))
+		}
+	})
+	return done
 }
